@@ -709,7 +709,7 @@ def nontrivial_shape(succ) -> bool:
 # --------------------------------------------------------------------------
 # naming
 
-STYLES = ["num", "perm", "bytecode", "alpha", "gen", "zpad"]
+STYLES = ["num", "perm", "bytecode", "alpha", "gen", "zpad", "words"]
 
 # names in the generator's own namespace (blocks named like generated blocks
 # and regions); restructuring must never hand out one of them again
@@ -737,6 +737,24 @@ def restyle(succ, style="num", perm=None):
             # a permutation of the pool prefix, so that names are distinct
             order = sorted(range(len(pool)), key=lambda j: (p[j % n] if n else 0, j))
             names = {i: pool[order[k]] for k, i in enumerate(sorted(succ))}
+    elif style == "words":
+        # names made of a few words joined by underscores ('loop', 'loop_body', 'body_exit', 'exit', ...): pairs of
+        # different names concatenate to the same string, one name is a prefix / suffix / substring of another
+        p = perm if perm is not None else list(range(n))
+        words = ["loop", "body", "exit", "a", "b"]
+        pool = []
+        for k in (1, 2, 3):
+            import itertools
+
+            pool.extend("_".join(t) for t in itertools.product(words, repeat=k))
+            if len(pool) >= max(n, 30):
+                break
+        if n > len(pool):
+            names = {i: str(i) for i in succ}
+        else:
+            # a permutation-dependent but collision-free choice among the shortest names
+            idx = sorted(range(len(pool)), key=lambda j: ((p[j % n] * 7 + j * 3) % 11, j))[:n]
+            names = {i: pool[idx[k]] for k, i in enumerate(sorted(succ))}
     elif style == "zpad":
         # numerals that differ only in leading zeros ('1', '01', '001'): equal as numbers, different as strings, so
         # any ordering that is not a plain string comparison ties on them
